@@ -117,16 +117,19 @@ CHECKS = {
              "writer are not covered.",
         ref="6/C15"),
     "C17": dict(
-        technique="TLA+ spec Lifecycle (relay pull module: enable / in-flight / attached / retry budget / auto-stop clock; TLC "
-                  "exhaustive + simulation) + replay into a real ServerManager with a gated stub origin + TLC trace "
-                  "validation",
-        text="TLC checks the pull invariants over every interleaving of subscriber arrivals, API start / stop / kick, "
-             "origin outcomes (accept, refuse, end), publisher arrivals, ticks and elapsed auto-stop windows for retry "
-             "budgets 0 / 1 / forever and auto-stop never / immediately / after a window; behaviours are replayed into a "
-             "real ServerManager whose pulls connect to a gated origin, and API return codes, notifications, the number "
-             "of connection attempts the origin saw and the stat listing after every step are decided by TLC.",
-        note="Relay pull only: the relay-push clause (targets, retries on tick, URL parameter length) is not yet bound to the "
-             "code; the auto-stop window is real time (700 ms; stalled scenarios are dropped as inconclusive).",
+        technique="TLA+ spec Lifecycle (relay pull module: enable / in-flight / attached / retry budget / auto-stop clock; relay "
+                  "push module: per-target idle / connecting / attached; TLC exhaustive + simulation) + replay into a real "
+                  "ServerManager with a gated stub origin and gated stub push targets + TLC trace validation",
+        text="TLC checks the pull and push invariants over every interleaving of subscriber arrivals, API start / stop / kick, "
+             "origin outcomes (accept, refuse, end), publisher arrivals, ticks, elapsed auto-stop windows and push-target "
+             "outcomes (accept, refuse, end) for retry budgets 0 / 1 / forever and auto-stop never / immediately / after a "
+             "window; behaviours are replayed into a real ServerManager whose pulls connect to a gated origin and whose "
+             "pushes connect to gated targets (real rtmp.ServerSession on TCP), and API return codes, notifications, the "
+             "connection attempts origin and targets saw, the attached push sessions, the length of the URL parameters "
+             "that reach the target (300 / 1000 / 70000 bytes) and the stat listing after every step are decided by TLC.",
+        note="The auto-stop window is real time (700 ms; stalled scenarios are dropped as inconclusive). Push scenarios run in "
+             "child processes so that a panic in a goroutine lal owns is an observation (event Died). Push towards RTSP "
+             "targets does not exist in lal; the push write timeout is not driven.",
         ref="6/C17"),
     "C16": dict(
         technique="TLA+ specs Lifecycle (pipeline ownership, hook stop, shutdown, group removal) and Fanout (caches / codec "
